@@ -98,13 +98,19 @@ def run(eng, ctx):
     se = eng.symeval(mb.qualname)
     loops = se.loop_info
     scans = {}  # field -> dict(loop id, E poly, range, key polys, counter var)
+    inverted = {}
     for e in se.effects:
         for c, pol in e.guards:
             bt = _bit_test(c)
-            if bt and pol and e.loops:
+            if bt and e.loops:
                 fld = _mask_field(bt[0])
-                if fld:
+                if fld and pol:
                     scans.setdefault(fld, {"loop": e.loops, "test": c, "X": bt[0], "E": bt[1], "effects": []})["effects"].append(e)
+                elif fld and e.kind in ("setitem", "call") and (e.kind == "setitem" or (e.term[2][0] == "attr" and e.term[2][2] == "append")):
+                    inverted[fld] = e
+    for fld, e in inverted.items():
+        if fld not in scans:
+            ctx.bad("C09.D2", mb.qualname, f"scan of {fld}", expected="labels are recorded for the SET bits of the mask", found="the map / list is filled under the negated bit test", **eng.loc(mb, e.node))
     ctx.instance("mask scan loops", len(scans), 3)
     facts = eng.decoder_facts
     dc = facts["derived_counters"]
@@ -143,6 +149,8 @@ def run(eng, ctx):
             outer_lid = sc["loop"][0]
             pre = (loops.get(outer_lid, {}).get("pre", {})).get(cname)
             fresh = pre is not None and pre[0] in ("dict", "list") and not pre[1]
+            ctx.check(fresh, "C09.D2", mb.qualname, f"container of the {fld} scan", expected=f"`{cname}` is a new empty {kind} when the scan starts",
+                      found=show(pre)[:60] if pre is not None else "not assigned in the map builder before the scan", **eng.loc(mb, e.node))
             others = [x for x in se.effects if x is not e and ((x.kind == "setitem" and x.target[0] == "item" and x.target[1][0] in ("loop", "loopout") and x.target[1][2] == cname)
                                                                    or (x.kind == "call" and x.term[2][0] == "attr" and x.term[2][2] in ("append", "extend", "insert", "pop", "clear", "update", "setdefault", "remove") and x.term[2][1][0] in ("loop", "loopout") and x.term[2][1][2] == cname and x.term[2][2] != "append"))]
             if fresh and not others:
@@ -305,6 +313,8 @@ def run(eng, ctx):
                 ctx.check(v == want_v or v == alt, "C09.D2", mb.qualname, "cell label", expected="(label of the outer loop's satellite, label of the inner loop's signal)", found=show(v)[:140], **eng.loc(mb, sets[0].node))
     elif cell_field in scans:
         ctx.undecided("C09.D2", mb.qualname, "cell scan", detail="the satellite / signal counts the cell scan depends on were not identified", **eng.loc(mb, mb.node))
+    elif cell_field not in inverted:
+        ctx.undecided("C09.D2", mb.qualname, f"scan of {cell_field}", detail="no loop testing one bit of the cell mask per iteration and recording a label under it was recognised", **eng.loc(mb, mb.node))
     # consumers in the single-field routine: 1-based index from the group loop
     sf = eng.repo.func(eng.single_field_routine)
     ssf = eng.symeval(sf.qualname)
